@@ -2469,6 +2469,84 @@ def expand_new_properties(prog: Program) -> List[str]:
     return log
 
 
+def drop_value_memos(prog: Program) -> List[str]:
+    """One-entry memo of a value computed from a parameter, keyed by the parameter's bytes:
+
+        key = <expr over x: tobytes / dtype / shape>            (a local bound once)
+        if key == self.K:   t = self.V.copy()
+        else:               t = <E>;  self.K = key;  self.V = t.copy()
+
+    with self.K / self.V stored nowhere else in the class than here and (to None) in ``__init__``: the hit path yields a
+    fresh copy of what <E> gave for an x with the same bytes.  For the analysis the statement is replaced by ``t = <E>``.
+    Assumption recorded in the log: <E> depends on x and on state that does not change between calls (the memoised
+    function is pure) - the authors' equivalence batteries check that dynamically; the rewrite is refused when the hit
+    path hands out the cached object itself (no copy) or the stored value aliases t."""
+    log = []
+    inv = _inventory()[1]
+
+    def is_copy_of(e, name_canon):
+        return isinstance(e, ast.Call) and isinstance(e.func, ast.Attribute) and e.func.attr == "copy" and not e.args and ast.unparse(e.func.value) == name_canon
+
+    for cls in prog.classes():
+        for m in cls.methods.values():
+            if body_hash(m.node) in inv:
+                continue
+            for node in ast.walk(m.node):
+                for fld in ("body", "orelse", "finalbody"):
+                    blk = getattr(node, fld, None)
+                    if not (isinstance(blk, list) and blk and isinstance(blk[0], ast.stmt)):
+                        continue
+                    for i, st in enumerate(blk):
+                        if not (isinstance(st, ast.If) and isinstance(st.test, ast.Compare) and len(st.test.ops) == 1 and isinstance(st.test.ops[0], ast.Eq) and len(st.body) == 1 and len(st.orelse) == 3):
+                            continue
+                        l, r = st.test.left, st.test.comparators[0]
+                        if isinstance(r, ast.Name):
+                            l, r = r, l
+                        if not (isinstance(l, ast.Name) and isinstance(r, ast.Attribute) and isinstance(r.value, ast.Name) and r.value.id == "self"):
+                            continue
+                        key, K = l.id, r.attr
+                        hit = st.body[0]
+                        e1, e2, e3 = st.orelse
+                        if not (isinstance(hit, ast.Assign) and len(hit.targets) == 1 and isinstance(hit.targets[0], ast.Name) and isinstance(e1, ast.Assign) and len(e1.targets) == 1
+                                and isinstance(e1.targets[0], ast.Name) and e1.targets[0].id == hit.targets[0].id):
+                            continue
+                        t = hit.targets[0].id
+                        stores = {}
+                        for e_ in (e2, e3):
+                            if isinstance(e_, ast.Assign) and len(e_.targets) == 1 and isinstance(e_.targets[0], ast.Attribute) and isinstance(e_.targets[0].value, ast.Name) and e_.targets[0].value.id == "self":
+                                stores[e_.targets[0].attr] = e_.value
+                        if len(stores) != 2 or K not in stores or not (isinstance(stores[K], ast.Name) and stores[K].id == key):
+                            continue
+                        V = [a for a in stores if a != K][0]
+                        if not is_copy_of(stores[V], t) or not is_copy_of(hit.value, f"self.{V}"):
+                            continue
+                        # the key: a local bound once, from the parameter's bytes
+                        kdefs = [n for n in ast.walk(m.node) if isinstance(n, ast.Assign) and any(isinstance(x, ast.Name) and x.id == key for x in n.targets)]
+                        if len(kdefs) != 1 or "tobytes" not in ast.unparse(kdefs[0].value):
+                            continue
+                        # K and V are stored nowhere else (None in __init__ excepted)
+                        other = False
+                        for m2 in cls.methods.values():
+                            for n in ast.walk(m2.node):
+                                if isinstance(n, ast.Attribute) and n.attr in (K, V) and isinstance(n.value, ast.Name) and n.value.id == "self":
+                                    par_ok = any(n is x for e_ in (e2, e3, hit, st.test) for x in ast.walk(e_))
+                                    if par_ok:
+                                        continue
+                                    if isinstance(n.ctx, ast.Store):
+                                        asg = [a for a in ast.walk(m2.node) if isinstance(a, ast.Assign) and any(tt is n for tt in a.targets)]
+                                        if asg and isinstance(asg[0].value, ast.Constant) and asg[0].value.value is None:
+                                            continue
+                                    other = True
+                        if other:
+                            continue
+                        blk[i] = ast.copy_location(ast.Assign(targets=[ast.Name(id=t, ctx=ast.Store())], value=e1.value), st)
+                        log.append(f"{m.qualname} (one-entry memo self.{K} / self.{V} of a value keyed by the parameter's bytes read as the computation itself; assumes the memoised expression is a pure function of the keyed parameter)")
+    if log:
+        for mo in prog.modules.values():
+            ast.fix_missing_locations(mo.tree)
+    return log
+
+
 def normalise(prog: Program) -> Tuple[Program, List[str]]:
     """-> (normalised program, names of the helpers that were inlined)."""
     log: List[str] = []
@@ -2479,6 +2557,11 @@ def normalise(prog: Program) -> Tuple[Program, List[str]]:
         log += pc
         for m in prog.modules.values():
             ast.fix_missing_locations(m.tree)
+        trees = {m.relpath: m.tree for m in prog.modules.values()}
+        prog = Program(prog.root, override_trees=trees)
+    dm = drop_value_memos(prog)
+    if dm:
+        log += dm
         trees = {m.relpath: m.tree for m in prog.modules.values()}
         prog = Program(prog.root, override_trees=trees)
     pe = expand_new_properties(prog)
